@@ -37,8 +37,39 @@ def bitmap_jobs(tier):
     return J
 
 
+HV = 'harness/c19_varr.c'
+VARR_FNS = ('length', 'capacity', 'addr', 'get', 'last', 'set', 'trunc', 'pop', 'expand', 'tailor', 'push', 'push_arr',
+            'create', 'destroy')
+
+
+def varr_jobs(tier, elszs=(8, 16)):
+    J = []
+    for sz in elszs:
+        for f in VARR_FNS:
+            J.append(Job('varr%d.%s' % (sz, f), HV, 'h_' + f, enforce='VARR_vp_el_t' + f,
+                         defines=dict(ND, VP_ELSZ=sz), anns=['annot/varr.ann'], unwind=20, solver='cadical'))
+    return J
+
+
+def with_fallback(j, unwind=8):
+    """bounded stand-in used only when the loop contracts no longer fit the code"""
+    if not j.anns:
+        return j
+    j.fallback = Job(j.name + '#bounded-fallback', j.harness, j.entry, enforce=j.enforce,
+                     defines=dict(j.defines, VP_SMALL=None), anns=[], ops=j.ops, unwind=unwind, kind='bounded',
+                     bound='capacities <= 3 words, loops unwound %d times, no loop contracts' % unwind,
+                     timeout=600, loop_contracts=False)
+    return j
+
+
 def jobs(tier):
-    return bitmap_jobs(tier)
+    J = []
+    for j in bitmap_jobs(tier):
+        big = any(k in j.name for k in ('bit_min', 'bit_max', 'iterator'))
+        j.solver = 'cadical'  # measured: op.ior_and_compl[dabc] 33 s with cadical, 413 s with minisat
+        J.append(with_fallback(j, 66 if big else 8))
+    J += varr_jobs(tier, (8,) if tier == 'quick' else (1, 8, 16))
+    return J
 
 
 META = {
